@@ -358,7 +358,38 @@ var mateNets = []string{
 func genC06(t *rapid.T, maxDepth int, quiescence bool) c06Case {
 	var p rc.Pos
 	isNet := false
-	switch rapid.IntRange(0, 7).Draw(t, "src") {
+	fixed := func(pl hx.Playout) c06Case {
+		c := c06Case{Quiescence: quiescence, Play: pl}
+		poss, _ := pl.Replay()
+		root := poss[len(poss)-1]
+		n := len(root.Legal())
+		c.Depth = rapid.IntRange(1, maxDepth).Draw(t, "depth")
+		for c.Depth > 1 && pow(n+1, c.Depth) > 60000 {
+			c.Depth--
+		}
+		c.Combos = []int{0, 127, rapid.IntRange(1, 126).Draw(t, "combo1"), rapid.IntRange(1, 126).Draw(t, "combo2")}
+		return c
+	}
+	switch rapid.IntRange(0, 11).Draw(t, "src") {
+	case 8: // one ply before a forced reply (ep evasion / interposing double step / promotion / <= 2 moves)
+		fc := hx.GenForced(t)
+		if fc.Pred != "" && rapid.IntRange(0, 3).Draw(t, "fromPred") != 0 {
+			return fixed(hx.Playout{Start: fc.Pred})
+		}
+		return fixed(hx.Playout{Start: fc.Fen})
+	case 9, 10, 11: // shuffle history: the tree meets second / third occurrences at clocks 4, 8, 12 above the start clock
+		q := hx.GenStart(t, 6)
+		if q.EP < 0 {
+			q.Half = rapid.SampledFrom([]int{0, 0, 0, 0, 0, 1, 2, 3, 88, 91, 92, 95}).Draw(t, "startClock")
+		}
+		if pl, ok := hx.GenShuffleHistory(t, q, 3); ok {
+			return fixed(pl)
+		}
+		p = q
+		c := fixed(hx.GenPlayoutFrom(t, p, 16, 2))
+		return c
+	}
+	switch rapid.IntRange(0, 7).Draw(t, "src2") {
 	case 6, 7: // mating / stalemating nets so that mate scores, MDP cuts and terminal nodes occur
 		p = rc.MustParse(mateNets[rapid.IntRange(0, len(mateNets)-1).Draw(t, "net")])
 		isNet = true
